@@ -911,6 +911,25 @@ theorem C07_cancel_in_callback (cfg : Cfg) (s : ObsState) (t : Nat) (m : Msg) (l
     | unmodelled => exfalso; revert hcb; simp [step]
   exact ⟨key.1, key.2.1, key.2.2, (calm_run (Or.inr key.2.2) post).2⟩
 
+/-- **C07 (cancelling once more does nothing).** `request.observation.cancel()` on an observation
+that is cancelled already — by the application before the first response or during the
+observation, or because it has ended (`error()` cancels it; state `ended` of an observing request)
+— changes nothing and delivers nothing; in particular it raises nothing into whoever is just
+delivering the end to an errback that cancels "its" observation (the sweep of
+`TokenManager.shutdown`, the transport): the deliveries of a history are the same with and without
+such calls. -/
+theorem C07_cancel_again_is_noop (cfg : Cfg) (hobs : cfg.observe = true) (s : ObsState) (t : Nat)
+    (hs : s = .cancelledFirst ∨ s = .appCancelled ∨ s = .ended) (pre post : List TEvent)
+    (hpre : finalState cfg .awaitingFirst pre = s) :
+    step cfg s ⟨t, .obsCancel⟩ = (s, []) ∧
+    deliveries cfg .awaitingFirst (pre ++ ⟨t, .obsCancel⟩ :: post) =
+      deliveries cfg .awaitingFirst (pre ++ post) := by
+  have h1 : step cfg s ⟨t, .obsCancel⟩ = (s, []) := by
+    rcases hs with h | h | h <;> subst h <;> simp [step, stepCancelledFirst, stepCancelled, hobs]
+  refine ⟨h1, ?_⟩
+  rw [deliveries_append, deliveries_append, hpre, deliveries_cons, h1]
+  rfl
+
 -- C07 clause 6c: the application gives the request up before its first response --------------------
 
 /-- **C07 (response future cancelled before the first response).** When the application cancels
@@ -1137,6 +1156,14 @@ example : deliveries exCfg .awaitingFirst
     [.response ⟨69, some 5, 0, false⟩, .callback ⟨132, none, 1, true⟩] := by decide
 example : Delivery.callback ⟨132, none, 1, true⟩ ∈
     (step exCfg (.observing 5 0) ⟨1, .message ⟨132, none, 1, true⟩ true⟩).2 := by decide
+/-- `observation.cancel()` after the end, and twice: nothing happens, nothing leaves the model -/
+example : deliveries exCfg .awaitingFirst
+    [exN 0 5 0, ⟨1, .message ⟨132, none, 1, false⟩ true⟩, ⟨2, .obsCancel⟩, ⟨3, .obsCancel⟩, exN 4 8 2] =
+    [.response ⟨69, some 5, 0, false⟩, .callback ⟨132, none, 1, false⟩, .errback .observationCancelled] := by
+  decide
+example : finalState exCfg .awaitingFirst
+    [exN 0 5 0, ⟨1, .message ⟨132, none, 1, false⟩ true⟩, ⟨2, .obsCancel⟩, ⟨3, .obsCancel⟩] = .ended := by
+  decide
 /-- `response.cancel()` before the first response ends the observation -/
 example : deliveries exCfg .awaitingFirst [⟨0, .respCancel⟩, exN 1 5 0] =
     [.stopInterest, .errback .observationCancelled] := by decide
